@@ -11,6 +11,8 @@ structure ReplicaSt where
   cfg : Option RCfg := none
   r : RState := {}
   nwire : Nat := 0
+  lastOuts : List Out := []   -- effects of the last step (the cluster driver routes them)
+  pfx : String := "own"     -- prefix of the names under which this replica's own objects are registered
 
 def keys : Keys := { tmo := tmoKey }
 
@@ -62,7 +64,7 @@ structure SignNames where
 def finish (st : ReplicaSt) (c : RCfg) (res : RState × List Out) : ReplicaSt × String :=
   let (r', outs) := res
   if outs.any (fun o => match o with | .panic => true | _ => false) then
-    ({ st with r := r' }, "panic")
+    ({ st with r := r', lastOuts := [] }, "panic")
   else
     -- timeout-bytes signatures: re-render the key with the QC description of the harness
     let (w', strs) := outs.foldl (fun (acc : WireSt × List String) o =>
@@ -86,19 +88,19 @@ def finish (st : ReplicaSt) (c : RCfg) (res : RState × List Out) : ReplicaSt ×
     -- own objects become available to later script lines under fixed names
     let c1 := outs.foldl (fun (cs : CertSt) o =>
       match o with
-      | .sendVote _ sg h => { cs with sigs := (s!"own.vote.{st.w.hashName h}", sg) :: cs.sigs }
+      | .sendVote _ sg h => { cs with sigs := (s!"{st.pfx}.vote.{st.w.hashName h}", sg) :: cs.sigs }
       | .sendTimeout t =>
-        let cs := match t.viewSig with | some v => { cs with sigs := (s!"own.vs.{t.view}", v) :: cs.sigs } | none => cs
-        let cs := match t.msgSig with | some v => { cs with sigs := (s!"own.ms.{t.view}", v) :: cs.sigs } | none => cs
-        { cs with tmos := (s!"own.tmo.{t.view}", ⟨t.id, t.view, t.viewSig, t.msgSig, t.si.qc⟩) :: cs.tmos }
+        let cs := match t.viewSig with | some v => { cs with sigs := (s!"{st.pfx}.vs.{t.view}", v) :: cs.sigs } | none => cs
+        let cs := match t.msgSig with | some v => { cs with sigs := (s!"{st.pfx}.ms.{t.view}", v) :: cs.sigs } | none => cs
+        { cs with tmos := (s!"{st.pfx}.tmo.{t.view}", ⟨t.id, t.view, t.viewSig, t.msgSig, t.si.qc⟩) :: cs.tmos }
       | .sendPropose b _ =>
         if (cs.blocks.lookup b.hash).isSome then cs else { cs with blocks := (b.hash, b) :: cs.blocks }
       | .sign m =>
         -- ground truth for the oracle: BLS signatures are not in the truth table of byte names
-        if c.scheme == .bls12 then { cs with sigs := cs.sigs ++ [(s!"own.signed.{m}", blsSign c.id m)] } else cs
+        if c.scheme == .bls12 then { cs with sigs := cs.sigs ++ [(s!"{st.pfx}.signed.{m}", blsSign c.id m)] } else cs
       | _ => cs) w'.c
     let w'' := { w' with c := { c1 with truth := r'.truth, nextBytes := r'.nextBytes } }
-    ({ st with w := w'', r := r' }, joinWith " ; " strs ++ " | " ++ dumpR w'' c r')
+    ({ st with w := w'', r := r', lastOuts := outs }, joinWith " ; " strs ++ " | " ++ dumpR w'' c r')
 
 def dropsOf (rest : List String) : List String :=
   match field "drop" rest with
